@@ -188,7 +188,8 @@ def rule_shared_mutables(run, prog):
         pos = a.posonlyargs + a.args
         for p, d in list(zip(pos[len(pos) - len(a.defaults):], a.defaults)) + [
                 (p, d) for p, d in zip(a.kwonlyargs, a.kw_defaults) if d is not None]:
-            if _is_mutable_display(d):
+            if _is_mutable_display(d) or (isinstance(d, ast.Call) and isinstance(d.func, ast.Name) and d.func.id in prog.classes):
+                # (an instance of a repository class built in the signature is created once, at definition time)
                 shared[p.arg] = f"{fn.key}::default[{p.arg}]"
         # class-level mutables through self./cls./ClassName.
         def class_shared(e) -> Optional[str]:
@@ -410,19 +411,115 @@ def rule_class_state(run, prog):
            prog.cls("Registry").node)
 
 
+def _fresh_in_iteration(fn, loop, use, expr, ctor: str, depth=0):
+    """Is the value of *expr* (evaluated at *use*, inside *loop*) built from a `<ctor>(...)` call made in the same
+    iteration?  Either the expression contains the construction itself, or it reads locals every path from the loop header
+    to the use defines (reaching definitions, the loop's back edges cut) by values that derive from one.
+    -> (ok, why, the constructor call found)"""
+    from ..dataflow import _rd_of, cfg_node_of
+    for c in ast.walk(expr):
+        if isinstance(c, ast.Call) and isinstance(c.func, ast.Name) and c.func.id == ctor:
+            inside = any(a is loop for a in ancestors(c))
+            return (inside, "" if inside else f"{ctor}(...) is built outside the loop", c)
+    if depth > 4:
+        return False, "definition chain too long", None
+    g, rd = _rd_of(fn)
+    at = cfg_node_of(g, use)
+    head = g.nid(loop) if isinstance(loop, ast.For) else g.nid(loop.test)
+    names = [n for n in ast.walk(expr) if isinstance(n, ast.Name) and isinstance(n.ctx, ast.Load)]
+    if at is None or head is None or not names:
+        return False, f"`{text(expr, 40)}` does not come from a {ctor}(...) construction", None
+    inside_ids = {id(x) for st in loop.body for x in ast.walk(st)}
+    why = f"`{text(expr, 40)}` does not come from a {ctor}(...) construction"
+    for nm in names:
+        defs = [d for d in rd.get(at, {}).get(nm.id, set()) if d >= 0 and g.nodes[d].ast is not None and id(g.nodes[d].ast) in inside_ids]
+        if not defs:
+            continue
+        # every path of the iteration defines it before the use
+        if g.can_reach(head, at, avoid=set(defs), follow_exc=False,
+                       edge_filter=lambda a, b, lab: True) and at not in defs:
+            why = f"`{nm.id}` may still hold the object of an earlier file when it is used (a path of the iteration does not rebuild it)"
+            continue
+        results = []
+        for d in defs:
+            a = g.nodes[d].ast
+            val = a.value if isinstance(a, (ast.Assign, ast.AnnAssign)) and g.nodes[d].kind == "stmt" else None
+            if val is None:
+                results.append((False, f"`{nm.id}` is bound by `{text(a, 40)}`, not by a {ctor}(...) construction", None))
+            else:
+                results.append(_fresh_in_iteration(fn, loop, a, val, ctor, depth + 1))
+        if results and all(r[0] for r in results):
+            return True, "", results[0][2]
+        if results:
+            why = next(r[1] for r in results if not r[0])
+    return False, why, None
+
+
+def _constructors_observed(prog, fi, ci):
+    """File.__init__ / Context.__init__ interpreted on stubs: (each File gets its own new Errors, Context.errors is that
+    object); None when they cannot be interpreted."""
+    import os.path
+    from ..minieval import Evaluator, Obj, Unsupported
+    try:
+        made = []
+
+        def errors_ctor(*a, **k):
+            made.append(Obj("Errors", _seq=[]))
+            return made[-1]
+        pathmod = Obj("module", _native={"basename": os.path.basename, "splitext": os.path.splitext, "split": os.path.split,
+                                         "dirname": os.path.dirname, "join": os.path.join})
+        files = []
+        for path in ("a/x.c", "b/y.h"):
+            ev = Evaluator({}, modules={"os": {"path": pathmod}}, lookup=_module_lookup(prog, ["file.py"]))
+            ev.globals.update(_stub_globals())
+            ev.globals["Errors"] = errors_ctor
+            me = Obj("File")
+            ev.invoke(fi.node, [me, path], {})
+            files.append(me)
+        fresh = len(made) == 2 and files[0].__dict__.get("errors") is made[0] and files[1].__dict__.get("errors") is made[1]
+        ev = Evaluator({}, lookup=_module_lookup(prog, ["context.py"]))
+        ev.globals.update(_stub_globals())
+        ev.globals.update({"GlobalScope": lambda *a: Obj("GlobalScope"), "PreProcessors": lambda *a: Obj("PreProcessors"),
+                           "int": int, "len": len})
+        ctx = Obj("Context")
+        ev.invoke(ci.node, [ctx, files[0], [Obj("Token", type="INT", value=None, pos=(1, 1))]], {})
+        same = ctx.__dict__.get("errors") is files[0].__dict__.get("errors")
+        return fresh, same
+    except (Unsupported, LookupError, TypeError, ValueError, AttributeError):
+        return None
+
+
 def rule_fresh(run, prog):
     run.rule("R-6.3", "per-file objects are fresh: Lexer and Context are constructed inside main's per-file loop, File owns "
              "a fresh Errors, and the constructors of Context / Scope* / PreProcessors / File / Errors bind only literals, "
              "constructor results and their own parameters (no class-level mutable in those modules)", floor=8)
     main = prog.fn("__main__.py::main")
-    loops = [n for n in main.node.body if isinstance(n, ast.For) and any(
-        isinstance(c, ast.Call) and text(c.func).endswith("registry.run") for c in ast.walk(n))]
-    run.require(len(loops) == 1, "anchor vanished: per-file loop of main")
-    for cname in ("Lexer", "Context"):
-        calls = [c for c in ast.walk(main.node) if isinstance(c, ast.Call) and text(c.func) == cname]
-        inside = [c for c in calls if any(a is loops[0] for a in ancestors(c))]
-        run.ob("R-6.3", f"{main.key}::fresh[{cname}]", len(calls) >= 1 and len(calls) == len(inside),
-               f"{cname} is not constructed once per file inside the per-file loop", calls[0] if calls else main.node)
+    cg = callgraph(prog)
+    runs = [c.node for c in cg.calls_of.get(main.key, []) if any(t.key == "registry.py::Registry.run" for t in c.targets)
+            and isinstance(c.node, ast.Call)]
+    run.require(len(runs) >= 1, "anchor vanished: the call of Registry.run in main")
+    for call in runs:
+        loop = next((a for a in ancestors(call) if isinstance(a, (ast.For, ast.While))), None)
+        arg = call.args[0] if call.args else (call.keywords[0].value if call.keywords else None)
+        if loop is None or arg is None:
+            for cname in ("Lexer", "Context"):
+                run.ob("R-6.3", f"{main.key}::fresh[{cname}]", False,
+                       f"registry.run is not called inside a per-file loop with a context argument", call)
+            continue
+        ok_c, why_c, ctor = _fresh_in_iteration(main, loop, call, arg, "Context")
+        run.ob("R-6.3", f"{main.key}::fresh[Context]", ok_c,
+               f"Context is not constructed once per file inside the per-file loop: {why_c}", ctor or call)
+        ok_l, why_l = False, "no Context(...) construction found to look at its token argument"
+        node_l = call
+        if ctor is not None:
+            targ = ctor.args[1] if len(ctor.args) > 1 else next((k.value for k in ctor.keywords if k.arg == "tokens"), None)
+            if targ is None:
+                why_l = "Context(...) is built without a token list argument"
+            else:
+                ok_l, why_l, lx = _fresh_in_iteration(main, loop, ctor, targ, "Lexer")
+                node_l = lx or ctor
+        run.ob("R-6.3", f"{main.key}::fresh[Lexer]", ok_l,
+               f"Lexer is not constructed once per file inside the per-file loop: {why_l}", node_l)
     gm = global_mutables(prog)
     for cname in ["Context", "PreProcessors", "File", "Errors"] + [c.name for c in prog.subclasses("Scope", strict=False)]:
         c = prog.cls(cname)
@@ -441,10 +538,14 @@ def rule_fresh(run, prog):
                bad[0] if bad else c.node)
     fi = prog.method("File", "__init__")
     ok = any(isinstance(n, ast.Assign) and text(n.targets[0]) == "self.errors" and text(n.value) == "Errors()" for n in walk_fn(fi.node))
-    run.ob("R-6.3", f"{fi.key}::fresh-errors", ok, "File.__init__ does not create a fresh Errors()", fi.node)
     ci = prog.method("Context", "__init__")
-    ok = any(isinstance(n, ast.Assign) and text(n.targets[0]) == "self.errors" and text(n.value) == "file.errors" for n in walk_fn(ci.node))
-    run.ob("R-6.3", f"{ci.key}::errors-of-file", ok, "Context.errors is not the file's own Errors", ci.node)
+    ok2 = any(isinstance(n, ast.Assign) and text(n.targets[0]) == "self.errors" and text(n.value) == "file.errors" for n in walk_fn(ci.node))
+    if not (ok and ok2):
+        seen = _constructors_observed(prog, fi, ci)
+        if seen is not None:
+            ok, ok2 = seen
+    run.ob("R-6.3", f"{fi.key}::fresh-errors", ok, "File.__init__ does not create a fresh Errors()", fi.node)
+    run.ob("R-6.3", f"{ci.key}::errors-of-file", ok2, "Context.errors is not the file's own Errors", ci.node)
 
 
 # ------------------------------------------------------------------------------------------------
@@ -501,7 +602,11 @@ def registry_semantics(prog):
                           "Rule": Obj("type", _native={"__subclasses__": lambda o=order: list(o) + list(chk)})})
                 pathmod = Obj("module", _native={"dirname": os.path.dirname, "realpath": lambda p_: p_, "abspath": lambda p_: p_,
                                                  "splitext": os.path.splitext, "join": os.path.join, "basename": os.path.basename})
-                ev = Evaluator({}, modules={"os": {"path": pathmod, "listdir": lambda d, f=files: list(f)},
+                ev = Evaluator({}, modules={"os": {"path": pathmod, "listdir": lambda d, f=files: list(f),
+                                                   "scandir": lambda d, f=files: [Obj("DirEntry", name=x, path=d + "/" + x,
+                                                                                      _native={"is_file": lambda: True, "is_dir": lambda: False})
+                                                                                  for x in f]},
+                                            "glob": {"glob": lambda pat, f=files, **k: [os.path.dirname(pat) + "/" + x for x in f]},
                                             "importlib": {"import_module": lambda nm, *a, _i=imported: _i.append(nm)}},
                                lookup=_module_lookup(prog, ["rules/__init__.py"]))
                 ev.globals.update(g)
@@ -700,6 +805,23 @@ def rule_restore(run, prog):
         for c in calls:
             by_api.setdefault(text(c.func), []).append(c)
         for api, cs in by_api.items():
+            # a context-manager class: acquired in __enter__, given back in __exit__ on every path through it
+            if fn.cls is not None and fn.name in ("__enter__", "__exit__") and {"__enter__", "__exit__"} <= set(fn.cls.methods):
+                ex = fn.cls.methods["__exit__"]
+                en = fn.cls.methods["__enter__"]
+                if fn.name == "__exit__" and any(isinstance(x, ast.Call) and text(x.func) == api for x in walk_fn(en.node)):
+                    continue                      # judged with __enter__
+                n_found += 1
+                gx = cfg_of(ex)
+                from ..dataflow import cfg_node_of
+                rest = {cfg_node_of(gx, x) for x in walk_fn(ex.node) if isinstance(x, ast.Call) and text(x.func) == api}
+                rest.discard(None)
+                okc = bool(rest) and gx.exit not in gx.reachable(gx.entry, avoid=rest, follow_exc=False)
+                run.ob("R-6.5", f"{fn.key}::restore[{api}]", okc,
+                       f"{api} is changed in __enter__ and not restored on every path through __exit__ "
+                       f"({'no restoring call' if not rest else 'a path skips the restoring call'}): the setting leaks into the "
+                       f"analysis of later files", cs[0])
+                continue
             n_found += 1
             first = min(cs, key=lambda c: (c.lineno, c.col_offset))
             restores = [c for c in cs if c is not first]
@@ -774,6 +896,10 @@ AMBIENT_ALLOWED = {
     ("file.py::File.source", "open"): "reads the file under analysis: it IS the input",
     ("rules/__init__.py::Rules.__init__", "os.listdir"): "rule discovery; order neutralised by R-6.4",
     ("rules/__init__.py::Rules.__init__", "os.path.realpath"): "rule discovery",
+    ("rules/__init__.py::Rules.__init__", "os.path.abspath"): "rule discovery",
+    ("rules/__init__.py::Rules.__init__", "os.scandir"): "rule discovery; order neutralised by R-6.4",
+    ("rules/__init__.py::Rules.__init__", "glob.glob"): "rule discovery; order neutralised by R-6.4",
+    ("rules/__init__.py::Rules.__init__", "pathlib.Path"): "rule discovery; order neutralised by R-6.4",
     ("errors.py::JSONErrorsFormatter.__str__", "os.path.abspath"): "presentation of the path in the JSON report",
     ("rules/rule.py::Rule.__hash__", "hash"): "hash of the rule's name string, used for equality with strings only",
 }
